@@ -4,6 +4,7 @@ package c18
 // operation and the enumeration of all crash points afterwards.
 
 import (
+	"bytes"
 	"fmt"
 	"strings"
 
@@ -19,6 +20,8 @@ const (
 	stateName = "state"
 	// known-finding id of the candidate defect (see MUTANTS.md / fixes/C18-prune-intermediate-base.patch)
 	knownID = "C18-prune-intermediate-base"
+	// known-finding id: state.Rollback rewrites the validators record of height n+1 as a pointer to a height without a set
+	knownRollbackID = "C18-rollback-validator-index"
 )
 
 type fataler interface {
@@ -54,6 +57,11 @@ func (cs *crashSpec) String() string {
 	return fmt.Sprintf("before-entry+%d", cs.K)
 }
 
+type rollbackRec struct {
+	n int   // journal length when state.Rollback was called
+	h int64 // height of the state that was rolled back (the block store's tip)
+}
+
 type hist struct {
 	t       fataler
 	test    string
@@ -73,6 +81,8 @@ type hist struct {
 		r int64
 	}
 	crashes     int
+	halted      bool          // no further operations (set when a listed known finding left the stores unusable)
+	rollbackAt  []rollbackRec // rollbacks performed: journal index at which each started, and the height rolled back
 	knownSeen   int
 	interFlush  []int // per executed PruneBlocks: range-descriptor writes seen in the journal (>= 2: an intermediate flush ran)
 	plainRun    int
@@ -182,6 +192,26 @@ func (hs *hist) matchesKnown(n int, sp span, fails []failure) bool {
 	return true
 }
 
+// matchesKnownRollback: the signature of C18-rollback-validator-index — a state.Rollback of height h has started
+// and the only unmet facts are validator sets of heights above h.
+func (hs *hist) matchesKnownRollback(n int, fails []failure) bool {
+	var h int64 = -1
+	for _, r := range hs.rollbackAt {
+		if r.n < n && (h < 0 || r.h < h) {
+			h = r.h
+		}
+	}
+	if h < 0 || len(fails) == 0 {
+		return false
+	}
+	for _, f := range fails {
+		if f.f.k != fVals || f.f.h <= h {
+			return false
+		}
+	}
+	return true
+}
+
 // verdict turns audit failures into a test failure unless they are exactly the listed known finding.
 func (hs *hist) verdict(where string, n int, sp span, fails []failure, err error) {
 	if err != nil {
@@ -194,6 +224,13 @@ func (hs *hist) verdict(where string, n int, sp span, fails []failure, err error
 		lib.ObservedKnown(knownID)
 		lib.ExcludedByKnown(knownID)
 		hs.knownSeen++
+		return
+	}
+	if lib.IsKnown(knownRollbackID) && hs.matchesKnownRollback(n, fails) {
+		lib.ObservedKnown(knownRollbackID)
+		lib.ExcludedByKnown(knownRollbackID)
+		hs.knownSeen++
+		hs.halted = true // a node in this state panics in ApplyBlock two blocks later: the history ends here
 		return
 	}
 	msgs := make([]string, len(fails))
@@ -229,6 +266,9 @@ func (hs *hist) liveAudit(where string, extra ...int64) span {
 // injected into SaveBlock; the restarted node saves the same block again.
 func (hs *hist) advance(plan *lib.HeightPlan, cs *crashSpec) {
 	c := hs.c
+	if hs.halted {
+		return
+	}
 	if plan == nil {
 		plan = &lib.HeightPlan{}
 	}
@@ -302,6 +342,9 @@ func (hs *hist) liveAuditLagging(where string) span {
 // prunes; the restarted node gets the same retain height again with its next commit and prunes again.
 func (hs *hist) prune(retain int64, cs *crashSpec) {
 	c := hs.c
+	if hs.halted {
+		return
+	}
 	if retain <= 0 {
 		return
 	}
@@ -373,10 +416,69 @@ func (hs *hist) prune(retain int64, cs *crashSpec) {
 	hs.checkGone(base, retain, pruned)
 }
 
+// rollback: the stopped node's state is rolled back by one height with state.Rollback (what `tendermint rollback`,
+// cmd/tendermint/commands/rollback.go, runs on the node's block store and state store: it rebuilds the state of
+// height n-1 and writes it with Store.Save), the application is rolled back by one height as the command's
+// documentation requires, and the node starts again: the handshake finds the block store one block ahead of the
+// state and applies block n once more (consensus/replay.go: replayBlock -> ApplyBlock, no SaveBlock). Both steps
+// are saves of the state store; every database write of them is a crash point like any other.
+func (hs *hist) rollback() {
+	c := hs.c
+	if hs.halted {
+		return
+	}
+	base, height := c.BlockStore.Base(), c.BlockStore.Height()
+	if height == 0 || height <= base || c.State.LastBlockHeight != height {
+		return // Rollback needs the block below the tip
+	}
+	rec := opRec{Kind: "rollback", Start: hs.j.Len(), H: height, BaseBefore: base, HeightBefore: height}
+	hs.j.SetTag(fmt.Sprintf("rollback:%d", height))
+	hs.logf("rollback of state %d (state.Rollback, application back to %d), then the restart re-applies block %d", height, height-1, height)
+	hs.rollbackAt = append(hs.rollbackAt, rollbackRec{hs.j.Len(), height})
+	rh, appHash, err := sm.Rollback(c.BlockStore, c.StateStore)
+	rec.End, rec.BaseAfter, rec.HeightAfter = hs.j.Len(), c.BlockStore.Base(), c.BlockStore.Height()
+	hs.ops = append(hs.ops, rec)
+	if err != nil || rh != height-1 {
+		hs.failf("harness: state.Rollback at height %d: rolled back to %d, err %v", height, rh, err)
+	}
+	if rec.BaseAfter != base || rec.HeightAfter != height {
+		hs.failf("state.Rollback changed the block store range: base %d->%d height %d->%d", base, rec.BaseAfter, height, rec.HeightAfter)
+	}
+	hs.liveAuditLagging(fmt.Sprintf("after rollback of state %d", height))
+	c.App.Rollback(height - 1)
+	if !bytes.Equal(appHash, c.App.AppHash) {
+		hs.failf("harness: rollback returned app hash %X, the application rolled back to %d has %X", appHash, height-1, c.App.AppHash)
+	}
+	// restart: stores reopened, state loaded, block n applied again
+	c.BlockStore = store.NewBlockStore(hs.bdb)
+	st, err := c.StateStore.Load()
+	if err != nil || st.LastBlockHeight != height-1 {
+		hs.failf("harness: state after rollback: height %d, err %v", st.LastBlockHeight, err)
+	}
+	rec2 := opRec{Kind: "reapply", Start: hs.j.Len(), H: height, BaseBefore: base, HeightBefore: height}
+	hs.j.SetTag(fmt.Sprintf("reapply:%d", height))
+	st2, _, err := c.Exec.ApplyBlock(st, c.IDs[height], c.Blocks[height])
+	if err != nil {
+		hs.failf("harness: re-applying block %d after the rollback: %v", height, err)
+	}
+	rec2.End, rec2.BaseAfter, rec2.HeightAfter = hs.j.Len(), c.BlockStore.Base(), c.BlockStore.Height()
+	hs.ops = append(hs.ops, rec2)
+	want := c.States[height]
+	if !bytes.Equal(st2.AppHash, want.AppHash) || !bytes.Equal(st2.Validators.Hash(), want.Validators.Hash()) ||
+		!bytes.Equal(st2.NextValidators.Hash(), want.NextValidators.Hash()) || !st2.ConsensusParams.Equal(&want.ConsensusParams) ||
+		!bytes.Equal(st2.LastResultsHash, want.LastResultsHash) {
+		hs.failf("harness: block %d re-applied on the rolled back state does not give the state it gave the first time", height)
+	}
+	c.State = st2
+}
+
 // pruneDirectBase: PruneBlocks(base) is inside PruneBlocks' documented domain (base <= height argument <= store
 // height); it must prune nothing and keep everything.
 func (hs *hist) pruneDirectBase() {
 	c := hs.c
+	if hs.halted {
+		return
+	}
 	base, height := c.BlockStore.Base(), c.BlockStore.Height()
 	if height == 0 {
 		return
@@ -564,6 +666,10 @@ func opDesc(o opRec) string {
 		return fmt.Sprintf("save(%d)", o.H)
 	case "genesis":
 		return "genesis"
+	case "rollback":
+		return fmt.Sprintf("rollback(state %d -> %d)", o.H, o.H-1)
+	case "reapply":
+		return fmt.Sprintf("reapply(%d)", o.H)
 	default:
 		s := fmt.Sprintf("%s(retain=%d, base=%d, height=%d)", o.Kind, o.Retain, o.BaseBefore, o.HeightBefore)
 		if o.Crashed {
